@@ -393,7 +393,9 @@ def run_world_case(case, prop: str) -> core.Outcome:
         if abs(solved / want_ratio - 1) > Fraction(1, 10**12):
             raise AssertionError(f"oracle: solver disagrees with construction: {float(solved)} vs {float(want_ratio)} for {q}")
         try:
-            got = (mag * src).in_unit(dst)
+            from . import convgen as _cg
+
+            got = _cg.quantity(mag, src, dst, classes=out.classes).in_unit(dst)
         except CNF:
             out.classes.append("syn:notfound")
             continue
